@@ -163,8 +163,10 @@ class State():
         if force:
             time.sleep(SLEEP_TIMER)
 
+            self.association.postprocess_recv_messages_lock.acquire()
             self.association._stop_threads = True
             self.association.postprocess_recv_messages_ready.set()
+            self.association.postprocess_recv_messages_lock.release()
 
         if set_name:
             self.name = self.next_state = CLOSED
